@@ -18,6 +18,11 @@ for mp in sorted(glob.glob('/verif/seeded/*/meta.json')):
     if m['property'] == pid:
         first = [x.strip().lstrip('#').strip() for x in m.get('needs_to_manifest', '').splitlines() if x.strip()]
         prev.append('  - ' + (first[0][:170] if first else m['id']))
+flavour = sys.argv[2] if len(sys.argv) > 2 else ''
+FLAVOURS = {
+    'threshold': "\nADDITIONAL REQUIREMENT for this round: each of your two changes must depend on a *size, count or depth threshold* (for instance: more than N facts in a predicate, a term deeper or longer than N, more than N answers, the N-th call of something, N generators alive at once, N engines, N loads/registrations/clears, a name longer than N characters) with N somewhere between 5 and 200: below the threshold the behaviour must be exactly right, so that small examples never show it. Say in notes.md what the threshold is.\n",
+    'interaction': "\nADDITIONAL REQUIREMENT for this round: each of your two changes must only manifest when TWO different features of the public API or of the Prolog subset are used together in one history (for instance: retract inside findall, a registered function that itself runs a query, clear() while a generator is suspended, evaluate_bounded over a query that asserts, call/N on a dynamic fact, two engines sharing terms, compiling while another engine runs); each feature on its own must behave exactly right. Say in notes.md which two.\n",
+}
 extra = ""
 if prev:
     extra = ("\nIMPORTANT: the following breakages of this property have ALREADY been collected; yours must be clearly different from all of them "
@@ -25,6 +30,7 @@ if prev:
              "\nLook for places nobody has touched yet: other functions that take part in upholding the property, interactions with other builtins, "
              "the compiler's generated code, option handling, error paths, unusual but legal API usage (several engines, threads for different engines, "
              "generators held for a long time, queries started from inside user predicates, re-registration, reload).\n")
+extra += FLAVOURS.get(flavour, '')
 print(f"""You are helping to test a verification tool by writing realistic *bugs* ("seeded defects") for a Python project, timhemel/yldprolog (a Python rewrite of Yield Prolog: an ANTLR-based compiler from a Prolog subset to Python generator code, plus a unification/backtracking engine in src/yldprolog/engine.py).
 
 You have your own scratch git worktree of the repository at /tmp/wt-{wid} (work ONLY there; never touch /repo or /verif, never read anything under /verif). Run Python as `/venv/bin/python` with `PYTHONPATH=/tmp/wt-{wid}/src` so that your worktree's code is imported (check `yldprolog.__file__`). The existing test suite is run with:
